@@ -251,3 +251,19 @@ Definition heap_below (ns : nat) (h : heap) : Prop := Forall (node_below ns) h.
 Definition wf_heapb (h : heap) : bool :=
   forallb (fun '(d, n) => match n with NMixin fs | NSpatial fs => forallb (fun x => x <? d) fs | _ => true end)
           (combine (seq 0 (length h)) h).
+
+(* ---- printing for the correspondence harness: plain numbers only --------------------------------- *)
+Definition kind_code (k : kind) : nat := match k with KFloat => 0 | KComplex => 1 | KInt => 2 | KBool => 3 end.
+Definition prec_code (p : prec) : nat := match p with P16 => 0 | P32 => 1 | P64 => 2 end.
+Definition encode_tens (t : tens) : list nat :=
+  [kind_code (t_kind t); prec_code (t_prec t); t_storage t; t_content t; if t_view t then 1 else 0].
+Definition encode_node (n : node) : nat * list nat :=
+  match n with
+  | NTensor t => (0, encode_tens t)
+  | NMixin fs => (1, fs)
+  | NSpatial fs => (2, fs)
+  | NModule ts => (3, flat_map encode_tens ts)
+  | NPlain c m => (4, [c; if m then 1 else 0])
+  end.
+Definition encode_result (r : option (nat * heap)) : option (nat * list (nat * list nat)) :=
+  match r with Some (root, h) => Some (root, map encode_node h) | None => None end.
